@@ -469,6 +469,13 @@ pub fn run_op(c: &mut Case, idx: usize, toks: &[&str]) -> String {
             let _ = std::os::unix::fs::symlink(t, d.join(n));
             "ok:unit".to_string()
         }
+        // a Unix socket: a directory entry that is neither a regular file nor a directory (nor a symlink)
+        ["xsocket", b, name] => {
+            let d = c.tmpdirs[b.parse::<usize>().unwrap()].clone();
+            let n = String::from_utf8(unhex(name)).unwrap();
+            let _ = std::os::unix::net::UnixListener::bind(d.join(n));
+            "ok:unit".to_string()
+        }
         ["setfault", id, k] => {
             c.shared.lock().unwrap().fault = Some((id.parse().unwrap(), k.parse().unwrap()));
             "ok:unit".to_string()
